@@ -4,7 +4,7 @@
    directives of our own. *)
 Require Extraction.
 Require Import ExtrOcamlBasic.
-Require Import NX.Base.Prelude NX.Model.PQ NX.Model.Sink NX.Model.IPQ NX.Model.Sim.
+Require Import NX.Base.Prelude NX.Model.PQ NX.Model.Sink NX.Model.IPQ NX.Model.Sim NX.Model.Queue NX.Model.SeqLock.
 Extraction Language OCaml.
 Set Extraction KeepSingleton.
 
@@ -14,4 +14,8 @@ Definition x_eslot_run (o : bool) (ops : list (sink_op Z)) := eslot_run (eslot_n
 
 Definition x_ipq_run (ops : list (ipq_op Z)) := ipq_run (ipq_empty, []) ops.
 
-Extraction "../ocaml/gen/nxmodel.ml" x_pq_run x_ebuf_run x_eslot_run x_ipq_run sim_exec.
+Definition x_q_run (cap : nat) (ops : list (qop Z)) := q_run (queue_new cap) ops.
+
+Definition x_sl_run (v0 : tval) (vals : list tval) (n : nat) (sched : list nat) := sl_outputs (sl_run (sl_init v0 vals n) sched).
+
+Extraction "../ocaml/gen/nxmodel.ml" x_pq_run x_ebuf_run x_eslot_run x_ipq_run sim_exec x_q_run x_sl_run.
